@@ -121,8 +121,8 @@ CallKeys(ks) ==
       batches == Owners(ks, rot1, {})
       allout == rot1 = {}
       r == RunAll([failed |-> failed, dead |-> dead1, rot |-> rot1, xid |-> xid], batches, <<>>)
-      final == IF allout THEN (IF IgnoreExc THEN [e |-> "ret"] ELSE [e |-> "raise", x |-> "all"])
-               ELSE IF r.raises THEN [e |-> "raise", x |-> r.x] ELSE [e |-> "ret"]
+      final == IF allout THEN (IF IgnoreExc THEN [e |-> "ret"] ELSE [e |-> "raise", x |-> 0, xs |-> "all"])
+               ELSE IF r.raises THEN [e |-> "raise", x |-> r.x, xs |-> "id"] ELSE [e |-> "ret"]
   IN /\ hist' = Append(hist, <<"call">> \o ks)
      /\ UNCHANGED health
      /\ Feed(begin \o r.evs \o <<final>>)
